@@ -244,3 +244,9 @@ fn read_and_validate_local_modular_header(
 
     Ok((header, ma_ctx))
 }
+
+/// Verification hook H7 (squeeze/RCT kernels), only with `--cfg jxl_oxide_verif`.
+#[cfg(jxl_oxide_verif)]
+pub mod verif {
+    pub use crate::transform::verif::*;
+}
